@@ -166,6 +166,20 @@ void Parser::ParserImpl::parseDecl() {
     parseBindingDecl();
     break;
 
+  case Token::Kind::Indentation:
+    // As in Ninja, an indented line which holds nothing but blanks or a comment
+    // means nothing, also outside of a parameterized declaration.
+    consumeToken();
+    if (tok.tokenKind == Token::Kind::Newline) {
+      consumeToken();
+      break;
+    }
+    if (tok.tokenKind == Token::Kind::EndOfFile)
+      break;
+    error("unexpected token");
+    skipPastEOL();
+    break;
+
   default:
     error("unexpected token");
     skipPastEOL();
